@@ -190,8 +190,9 @@ class SGD(torch.optim.SGD):
             independent_weight_decay=independent_weight_decay,
             allow_non_unit_scaling_params=allow_non_unit_scaling_params,
         )
-        # No need to forward {lr, weight_decay}, as each group has these specified
-        super().__init__(params, *args, **kwargs)
+        # Each group has its own {lr, weight_decay}; lr is still passed on, only to keep
+        # torch's positional signature aligned for *args (momentum, betas, ...)
+        super().__init__(params, lr, *args, **kwargs)
 
 
 @inherit_docstring(
@@ -216,8 +217,9 @@ class Adam(torch.optim.Adam):
             independent_weight_decay=independent_weight_decay,
             allow_non_unit_scaling_params=allow_non_unit_scaling_params,
         )
-        # No need to forward {lr, weight_decay}, as each group has these specified
-        super().__init__(params, *args, **kwargs)
+        # Each group has its own {lr, weight_decay}; lr is still passed on, only to keep
+        # torch's positional signature aligned for *args (momentum, betas, ...)
+        super().__init__(params, lr, *args, **kwargs)
 
 
 @inherit_docstring(
@@ -244,8 +246,9 @@ class AdamW(torch.optim.AdamW):
             independent_weight_decay=independent_weight_decay,
             allow_non_unit_scaling_params=allow_non_unit_scaling_params,
         )
-        # No need to forward {lr, weight_decay}, as each group has these specified
-        super().__init__(params, *args, **kwargs)
+        # Each group has its own {lr, weight_decay}; lr is still passed on, only to keep
+        # torch's positional signature aligned for *args (momentum, betas, ...)
+        super().__init__(params, lr, *args, **kwargs)
 
 
 __all__ = generate__all__(__name__)
